@@ -213,8 +213,8 @@ Theorem def_name_span_exact content line lead sp c0 p rest :
   find_function_name_position content line (c0 :: p)
   = Ok (blen lead + 4 + blen sp, blen lead + 4 + blen sp + blen (c0 :: p)).
 Proof.
-  intros Hl Hlead Hsp. unfold find_function_name_position. rewrite Hl.
-  unfold find. change def_sp with (100 :: [101; 102; 32]).
+  intros Hl Hlead Hsp. unfold find_function_name_position, find_function_name_position_with, find_def_kw. rewrite Hl.
+  unfold find at 1. change def_sp with (100 :: [101; 102; 32]).
   rewrite (find_at_behind 100 [101; 102; 32] lead) by exact Hlead. change (100 :: [101; 102; 32]) with def_sp.
   replace (lead ++ def_sp ++ sp ++ (c0 :: p) ++ rest) with ((lead ++ def_sp) ++ sp ++ (c0 :: p) ++ rest)
     by (now rewrite <- app_assoc).
@@ -222,6 +222,35 @@ Proof.
   rewrite slice_from_app. cbn [of_opt rbind]. unfold find. rewrite find_at_behind by exact Hsp.
   rewrite blen_app. change (blen def_sp) with 4. f_equal.
 Qed.
+
+(** the same with a TAB behind the keyword (valid Python), on a line that shows no "def "
+    elsewhere: since fix faffab5 the keyword is found and the span is the name's *)
+Theorem def_name_span_exact_tab content line lead sp c0 p rest :
+  nth_opt (lines content) (line - 1) = Some (lead ++ def_tab ++ sp ++ (c0 :: p) ++ rest) ->
+  find def_sp (lead ++ def_tab ++ sp ++ (c0 :: p) ++ rest) = None ->
+  forallb (fun c => negb (100 =? c)) lead = true ->
+  forallb (fun c => negb (c0 =? c)) sp = true ->
+  find_function_name_position content line (c0 :: p)
+  = Ok (blen lead + 4 + blen sp, blen lead + 4 + blen sp + blen (c0 :: p)).
+Proof.
+  intros Hl Hno Hlead Hsp. unfold find_function_name_position, find_function_name_position_with, find_def_kw. rewrite Hl, Hno.
+  unfold find at 1. change def_tab with (100 :: [101; 102; 9]).
+  rewrite (find_at_behind 100 [101; 102; 9] lead) by exact Hlead. change (100 :: [101; 102; 9]) with def_tab.
+  replace (lead ++ def_tab ++ sp ++ (c0 :: p) ++ rest) with ((lead ++ def_tab) ++ sp ++ (c0 :: p) ++ rest)
+    by (now rewrite <- app_assoc).
+  replace (0 + blen lead + 4) with (blen (lead ++ def_tab)) by (rewrite blen_app; change (blen def_tab) with 4; lia).
+  rewrite slice_from_app. cbn [of_opt rbind]. unfold find. rewrite find_at_behind by exact Hsp.
+  rewrite blen_app. change (blen def_tab) with 4. f_equal.
+Qed.
+
+(** before the fix the search fell through to the whole line, which shows the name [e] inside
+    the keyword itself (and [sync] inside [async]) *)
+Lemma def_tab_old_refuted :
+  let content := [100; 101; 102; 9; 101; 40; 41; 58] in                                (* def<TAB>e(): *)
+  find_function_name_position_old content 1 [101] = Ok (1, 2)
+  /\ find_function_name_position content 1 [101] = Ok (4, 5)
+  /\ marks_on_line content 4 5 [101] = true.
+Proof. repeat split; vm_compute; reflexivity. Qed.
 
 (** what seeded change S14 does (search for the ALIAS instead of the function name): the
     span lands inside the function's name *)
